@@ -449,7 +449,17 @@ impl<'a> Exec<'a> {
                 return Ok(());
             }
             self.out.writes += 1;
-            return match self.file.create(Stream::new(Primitive::Integer(1), vec![1u8, 2, 3])) {
+            // two shapes: the serialisation fails at once, or only after it has created an object
+            // of its own (a stream whose typed dictionary part is a page content: the content stream
+            // is created, then the result is refused because it is not a dictionary)
+            let nested_first = self.out.writes % 2 == 0;
+            let result = if nested_first {
+                let inner = pdf::content::Content { parts: vec![Stream::new((), vec![b'q', b' ', b'Q'])] };
+                self.file.create(Stream::new(inner, vec![1u8, 2, 3])).map(|_| ())
+            } else {
+                self.file.create(Stream::new(Primitive::Integer(1), vec![1u8, 2, 3])).map(|_| ())
+            };
+            return match result {
                 Err(_) => {
                     self.out.refused_updates += 1;
                     Ok(())
